@@ -191,6 +191,8 @@ class StreamVal:
     def __deepcopy__(self, memo):
         c = StreamVal(self.items, self.name)
         c.pos = self.pos
+        if hasattr(self, "is_generator"):
+            c.is_generator = self.is_generator
         return c
 
 
@@ -304,8 +306,11 @@ class TypeVal:
 
 
 class ModVal:
-    def __init__(self, name):
-        self.name = name
+    def __init__(self, name, ext=False):
+        # ext: a standard-library module that shares its name with a module of the package (import inspect)
+        if name.startswith("stdlib:"):
+            name, ext = name[len("stdlib:"):], True
+        self.name, self.ext = name, ext
 
 
 class ReturnEx(Exception):
@@ -457,6 +462,26 @@ class Interp:
 
     # -------------------------------------------------------------- calls
     def call_func(self, func, pos, kw, self_obj=None, node=None, closure=None):
+        memo_key = None
+        for d_ in func.node.decorator_list:
+            dn_ = norm(d_.func if isinstance(d_, ast.Call) else d_)
+            if dn_.split(".")[-1] in ("lru_cache", "cache"):
+                # a memoised function hands the very same object to every caller with equal arguments -- for the life
+                # of the process (here: of this evaluator)
+                try:
+                    memo_key = (func.qual, repr(pos), repr(sorted(kw.items())))
+                except Exception:
+                    memo_key = None
+                memo = self.__dict__.setdefault("_memo", {})
+                if memo_key in memo:
+                    return memo[memo_key]
+        if memo_key is not None:
+            v_ = self._call_func(func, pos, kw, self_obj, node, closure)
+            self._memo[memo_key] = v_
+            return v_
+        return self._call_func(func, pos, kw, self_obj, node, closure)
+
+    def _call_func(self, func, pos, kw, self_obj=None, node=None, closure=None):
         if self.depth >= self.MAX_DEPTH:
             raise Unsupported("inlining deeper than %d at %s" % (self.MAX_DEPTH, func.qual))
         self.ctx.touch(func)
@@ -802,7 +827,7 @@ class Interp:
             elif isinstance(base, (Opaque, Sym)):
                 base.attrs[target.attr] = v
                 self.trace.events.append(("setattr", base, target.attr, v, target))
-            elif isinstance(base, ModVal) and base.name in self.proj.modules:
+            elif isinstance(base, ModVal) and base.name in self.proj.modules and not base.ext:
                 # a module-level switch set at run time (constants.always_return_list = True): later reads see it
                 self.overrides[(base.name, target.attr)] = v
                 self.trace.events.append(("setglobal", base.name, target.attr, v, target))
@@ -906,6 +931,8 @@ class Interp:
         if isinstance(base, BoundMethod) and isinstance(base.base, (Opaque, Sym)):
             base = Opaque("%s.%s" % (base.base.name, base.attr), "obj")
         if isinstance(base, ModVal):
+            if base.ext:
+                return ModVal(base.name + "." + node.attr, ext=True)
             if base.name in self.proj.modules:
                 q = "%s.%s" % (base.name, node.attr)
                 if q in self.proj.funcs:
@@ -1529,6 +1556,9 @@ class Interp:
             return list(_it.islice(pos[0], *pos[1:]))
         if name == "itertools.chain.from_iterable" and len(pos) == 1 and isinstance(pos[0], (list, tuple)) and all(isinstance(x, (list, tuple)) for x in pos[0]):
             return [y for x in pos[0] for y in x]
+        if name in ("inspect.isgenerator", "inspect.isgeneratorfunction") and len(pos) == 1:
+            # generators are one kind of one-shot iterator; iter(list), map(), islice()/chain() objects and files are others
+            return isinstance(pos[0], StreamVal) and getattr(pos[0], "is_generator", True) and name == "inspect.isgenerator"
         if name == "itertools.count":
             import itertools as _it2
             a_ = [x for x in list(pos) + [kw[k] for k in ("start", "step") if k in kw]]
@@ -2498,6 +2528,8 @@ class Interp:
         if isinstance(base, ModVal):
             self.trace.events.append(("call-ext", base.name + "." + attr, pos, kw, node))
             return Opaque("%s.%s()" % (base.name, attr), "obj")
+        if isinstance(base, int) and not isinstance(base, bool) and attr in ("bit_length", "bit_count", "__index__", "conjugate") and not pos and not kw:
+            return getattr(base, attr)()
         if base is None or isinstance(base, (bool, int, float)):
             if not hasattr(base, attr):
                 raise RaiseEx("AttributeError", "%r object has no attribute %r" % (type(base).__name__, attr), node)
